@@ -67,7 +67,8 @@ fn ask(i: usize, line: &str) -> Option<String> {
 fn gen(src: &mut Src, tier: Tier) -> Case {
     // union of the generators that reach the cfg!() branches: icase (legacy upper-casing table lookup, unicode folding),
     // bracket prefilters on longer unaligned haystacks (align_to path), backreferences (subrange_eq), named groups (HashMap/hashbrown)
-    let mut c = match src.below(5) {
+    let mut c = match src.below(6) {
+        5 => super::c01::gen_themed(src, tier),
         0 => {
             let pat = gen_soup(src, 8);
             let fl = gen_flags_any(src);
